@@ -404,6 +404,31 @@ def _shallowcopy(sk, n, x):
     return x
 
 
+ITERTOOLS_FUNCS = ('islice', 'chain', 'product', 'repeat', 'zip_longest', 'combinations', 'permutations', 'count', 'cycle', 'tee', 'pairwise')
+
+
+def itertools_func(name):
+    """the itertools functions that only rearrange the elements of their iterables (they never look at an element): applied to the
+    materialised iterables, the result materialised too (count / cycle / repeat without a bound stay lazy and are only usable under islice / zip)"""
+    def g(sk, n, *a, **k):
+        def mat(x):
+            if isinstance(x, (list, tuple, dict, set, str, range)) or hasattr(x, '__next__'):
+                return x
+            if isinstance(x, (Bag, GenObj)):
+                return list(sk.iterate(x, n))
+            return x
+        f = getattr(itertools, name, None)
+        if f is None:
+            raise Unsupported('itertools.%s' % name)
+        res = f(*[mat(x) for x in a], **k)
+        if name in ('count', 'cycle') or (name == 'repeat' and len(a) < 2 and 'times' not in k):
+            return res
+        if name == 'tee':
+            return tuple(list(x) for x in res)
+        return list(res)
+    return Py(g, 'itertools.' + name)
+
+
 OPERATOR_FUNCS = {'mul': o.mul, 'add': o.add, 'sub': o.sub, 'truediv': o.truediv, 'floordiv': o.floordiv, 'mod': o.mod, 'pow': o.pow}
 
 
@@ -495,6 +520,8 @@ class SK(object):
                 return BUILTINS['reduce']
             if imp[1].startswith('operator.') and imp[1].split('.', 1)[1] in OPERATOR_FUNCS:
                 return operator_func(imp[1].split('.', 1)[1])
+            if imp[1].startswith('itertools.') and imp[1].split('.', 1)[1] in ITERTOOLS_FUNCS:
+                return itertools_func(imp[1].split('.', 1)[1])
             if imp[1] == 'functools.partial':
                 return BUILTINS['partial']
             if imp[1] in ('bisect.bisect_left', 'bisect.bisect_right', 'bisect.bisect'):
@@ -561,6 +588,8 @@ class SK(object):
                     return Py(lambda sk, node, data, **k: ('json-document', _plain(data)), 'json.dumps')
                 return Py(lambda sk, node, doc, **k: _plain(doc[1]) if isinstance(doc, tuple) and len(doc) == 2 and doc[0] == 'json-document'
                           else (_ for _ in ()).throw(Unsupported('json.loads of a text that json.dumps did not produce')), 'json.loads')
+            if b.name == 'ext:itertools' and e.attr in ITERTOOLS_FUNCS:
+                return itertools_func(e.attr)
             if b.name == 'ext:operator' and e.attr in OPERATOR_FUNCS:
                 return operator_func(e.attr)
             if b.name == 'ext:functools' and e.attr == 'reduce':
